@@ -657,7 +657,13 @@ ImageStates(rows, side) == [r \in 1..Len(rows) |-> [c \in 1..Len(IF side = "a" T
 MonC20(S) ==
   LET ds == Delivered(S, 0)
       xs == ExpectedFrom(S, StartPos(S))
-  IN UNION {
+  IN
+  \* every delivered event has one of the library's statement kinds; a JSON rendering that says "unknown" has lost it
+  UNION {{Z("C20.structure", S, "the kind of a delivered event cannot be recovered from its JSON (type unknown)", k, j)
+            : j \in {i \in 1..Len(ds[k].jstates) : ~ds[k].jstates[i].err /\ ds[k].jstates[i].tname = "unknown"}}
+         : k \in 1..Len(ds)}
+  \cup
+  UNION {
        IF Len(ds[k].jstates) # Len(xs[k].changes) THEN {Z("C20.structure", S, "JSON does not have one event per change", k, 0)}
        ELSE UNION {
          LET e == xs[k].changes[j]  js == ds[k].jstates[j] IN
